@@ -213,7 +213,7 @@ func (g *gen) candidate() string {
 		kinds = append(kinds, "exec", "exec", "exec", "stdout", "stdout", "stderr", "helpercmd")
 	}
 	if g.o.Exec && g.o.Background {
-		kinds = append(kinds, "bg", "bg", "wait", "kill", "bgwait", "bgwait", "bgmix")
+		kinds = append(kinds, "bg", "bg", "wait", "kill", "bgwait", "bgwait", "bgmix", "bgend")
 	}
 	if g.p.CustomCmds {
 		kinds = append(kinds, "probe", "probe", "probe", "failcmd", "cemit", "setenv", "defer", "getenv")
@@ -341,6 +341,14 @@ func (g *gen) candidate() string {
 	case "env":
 		name := rapid.SampledFrom([]string{"VAR", "FOO", "HOME", "X_1", "GREETING"}).Draw(t, "envname")
 		val := rapid.SampledFrom([]string{"value", "two words", "", "a=b", "it's", "$HOME", "#hash"}).Draw(t, "envval")
+		switch rapid.IntRange(0, 9).Draw(t, "envform") {
+		case 7:
+			return neg + "env" // list the environment
+		case 8:
+			return neg + "env " + name // display one variable
+		case 9:
+			return neg + "env " + Q(name+"="+val) + " " + name + " OTHER=" + Q(val)
+		}
 		return neg + "env " + Q(name+"="+val)
 	case "chmod":
 		mode := rapid.SampledFrom([]string{"444", "555", "644", "755", "600", "000", "888", "1777", "rw"}).Draw(t, "mode")
@@ -424,6 +432,12 @@ func (g *gen) candidate() string {
 			return neg + "exec vmain block " + flags + " " + spec + "\nexec vmain waitfile " + ready
 		}
 		return neg + "exec vmain " + g.helperArgs() + " " + spec
+	case "bgend":
+		// end the script (skip or stop) while background commands are still running
+		if len(g.m.Background()) == 0 {
+			return g.simple()
+		}
+		return rapid.SampledFrom([]string{"skip", "stop", "skip 'later'", "stop 'enough'"}).Draw(t, "bgend")
 	case "bgmix":
 		// several named and anonymous background helpers in a drawn order, then one named helper is
 		// signalled and waited for while the others keep running until the script ends
